@@ -61,6 +61,7 @@ const (
 	avRow // []runeTokenType from the symbols2 table
 	avRowElem
 	avTuple
+	avRowFieldPtr // address of a field of a local copy of a table entry
 	avRecv     // the *lexer receiver
 	avFieldPtr // &l.field
 	avCell     // pointer to a local variable
@@ -353,6 +354,11 @@ func (e *lexEngine) inferFieldRoles(c *Ctx, st *types.Struct) {
 			e.fields[i] = r
 		}
 	}
+	if os.Getenv("LEX_ROLES") != "" {
+		for i := 0; i < st.NumFields(); i++ {
+			fmt.Printf("LEX_ROLES: field %s -> %q\n", st.Field(i).Name(), role[i])
+		}
+	}
 }
 
 // atoms: one representative rune per cell of the partition induced by all rune constants.
@@ -555,6 +561,13 @@ func (e *lexEngine) run(fn *ssa.Function, st lexState, args []av, binds []av) []
 		}
 	}
 	e.memo[key] = outs
+	if t := os.Getenv("LEX_TRACE"); t != "" && t == atomName(e.atom) {
+		var os_ []string
+		for _, o := range outs {
+			os_ = append(os_, o.st.String()+"/"+o.ret.sig())
+		}
+		fmt.Printf("LEX_TRACE %s%s -> %v\n", strings.Repeat("  ", len(e.stack)), key, os_)
+	}
 	return outs
 }
 
@@ -620,6 +633,15 @@ func (e *lexEngine) step(fn *ssa.Function, cfg *lexCfg, ins ssa.Instruction, out
 			set(x, av{kind: avOpaque})
 		case avTablePtr:
 			// &row[i].r
+			set(x, av{kind: avOpaque})
+		case avCell:
+			// a field of a local copy of a table entry (rt := symbols2[r]; rt.tt)
+			if cv, ok := cfg.cells[base.cell]; ok && cv.kind == avRowElem {
+				if st, ok := x.X.Type().Underlying().(*types.Pointer).Elem().Underlying().(*types.Struct); ok {
+					set(x, av{kind: avRowFieldPtr, row: cv.row, known: cv.known, table: st.Field(x.Field).Name()})
+					return []*lexCfg{cfg}
+				}
+			}
 			set(x, av{kind: avOpaque})
 		default:
 			set(x, av{kind: avOpaque})
@@ -705,6 +727,19 @@ func (e *lexEngine) step(fn *ssa.Function, cfg *lexCfg, ins ssa.Instruction, out
 						set(x, av{kind: avUnknown})
 					}
 				case "symbols2":
+					if _, isStruct := x.Type().Underlying().(*types.Struct); isStruct {
+						// the table holds one (second rune, token) pair per first rune, the zero
+						// pair where there is none
+						switch {
+						case !p.known:
+							set(x, av{kind: avRowElem, known: false})
+						case len(e.sym2[p.k]) == 0:
+							set(x, av{kind: avRowElem, row: []rowEnt{{0, 0}}, known: true})
+						default:
+							set(x, av{kind: avRowElem, row: e.sym2[p.k][:1], known: true})
+						}
+						break
+					}
 					if p.known {
 						set(x, av{kind: avRow, row: e.sym2[p.k], known: true})
 					} else {
@@ -715,6 +750,15 @@ func (e *lexEngine) step(fn *ssa.Function, cfg *lexCfg, ins ssa.Instruction, out
 				}
 			case avRowElem:
 				set(x, p)
+			case avRowFieldPtr:
+				switch {
+				case !p.known || len(p.row) == 0:
+					set(x, av{kind: avUnknown})
+				case p.table == "r":
+					set(x, known(p.row[0].r))
+				default:
+					set(x, known(p.row[0].tt))
+				}
 			default:
 				set(x, av{kind: avUnknown})
 			}
@@ -1068,15 +1112,21 @@ func (e *lexEngine) call(fn *ssa.Function, cfg *lexCfg, x *ssa.Call) []*lexCfg {
 		// a pure helper (rune predicates, table lookups, error constructors): interpret it only if
 		// it can influence control flow, i.e. returns bool / tokenType / a table row
 		res := callee.Signature.Results()
-		interesting := res.Len() == 1
-		if interesting {
-			switch t := res.At(0).Type().Underlying().(type) {
+		interesting := false
+		for i := 0; i < res.Len(); i++ {
+			switch t := res.At(i).Type().Underlying().(type) {
 			case *types.Basic:
-				interesting = t.Info()&(types.IsBoolean|types.IsInteger) != 0
+				if t.Info()&(types.IsBoolean|types.IsInteger) != 0 {
+					interesting = true
+				}
 			case *types.Slice:
-				interesting = isNamed(t.Elem(), "jparse", "runeTokenType")
-			default:
-				interesting = false
+				if isNamed(t.Elem(), "jparse", "runeTokenType") {
+					interesting = true
+				}
+			case *types.Struct:
+				if isNamed(res.At(i).Type(), "jparse", "runeTokenType") {
+					interesting = true
+				}
 			}
 		}
 		if !interesting {
